@@ -221,9 +221,9 @@ fn c15_bin_roundtrip() {
     kani::cover!(n == DAY_MAX && u == TS_MIN);
 }
 
-//@ unit c15_bin_roundtrip_od stubs=once_cell::imp::initialize_inner=>crate::serialize::verif_h_serde_rt::stub_once_init,crate::util::try_format=>crate::verif_support::stub_try_format,chrono::Local::now=>crate::verif_support::stub_local_now prop=C15,C03 mem=3 timeout=1200 bound="Oracle-style dates within +-2^20 seconds of the epoch (the whole-second gate is a 64-bit remainder; the whole range is decided by s15_binary_decode/s16_try_from_usecs): binary form = raw count, decodes to the same value"
+//@ unit c15_bin_roundtrip_od stubs=once_cell::imp::initialize_inner=>crate::serialize::verif_h_serde_rt::stub_once_init,crate::util::try_format=>crate::verif_support::stub_try_format,chrono::Local::now=>crate::verif_support::stub_local_now prop=C15,C03 mem=3 timeout=1200 bound="Oracle-style dates within +-2^12 seconds of the epoch (the whole-second gate is a 64-bit remainder; the whole range is decided by s15_binary_decode/s16_try_from_usecs): binary form = raw count, decodes to the same value"
 fn c15_bin_roundtrip_od() {
-    let k = any_i64_in(-(1 << 20), 1 << 20);
+    let k = any_i64_in(-(1 << 12), 1 << 12);
     let v = mk_od(k * 1_000_000);
     bin_roundtrip!(v, k * 1_000_000, OracleDate, I64);
     kani::cover!(k < 0);
